@@ -10,9 +10,9 @@ G = "dulwich/graph.py"
 ANY = "BaseException"
 
 class_spec(file="<abstract>", cls="ParentsProviderAbs", fields={"shallows": "None"})
-class_spec(file="<abstract>", cls="RepoAbs", fields={})
-contract(prop=["C13"], file="<abstract>", func="RepoAbs.parents_provider", trusted=True,
-         params={"self": "obj:RepoAbs"}, returns="obj:ParentsProviderAbs", raises={ANY: None})
+class_spec(file="<abstract>", cls="GraphRepoAbs", fields={})
+contract(prop=["C13"], file="<abstract>", func="GraphRepoAbs.parents_provider", trusted=True,
+         params={"self": "obj:GraphRepoAbs"}, returns="obj:ParentsProviderAbs", raises={ANY: None})
 contract(
     prop=["C13"], file="<abstract>", func="_find_lcas@spec", trusted=True,
     params={"lookup_parents": "opaque", "c1": "opaque", "c2s": "list[opaque]", "lookup_stamp": "opaque", "min_stamp": "opaque", "shallows": "opaque"},
@@ -25,7 +25,7 @@ contract(
 )
 contract(
     prop=["C13"], file=G, func="can_fast_forward",
-    params={"repo": "obj:RepoAbs", "c1": "opaque", "c2": "opaque"}, returns="bool", raises={ANY: None},
+    params={"repo": "obj:GraphRepoAbs", "c1": "opaque", "c2": "opaque"}, returns="bool", raises={ANY: None},
     requires=["upred('is_ancestor', c1, c1)"],
     ensures=["result == upred('is_ancestor', c1, c2) or (c1 == c2 and result)"],
     options={"callee_contracts": {"_find_lcas": ("<abstract>", "_find_lcas@spec")}, "default_param": "opaque"},
@@ -50,14 +50,14 @@ GUARDS = {"C13": [guard_no_time_cutoff]}
 ANC = "upred('is_ancestor', commit_ids[{a}], commit_ids[{b}])"
 contract(
     prop=["C13"], file="<abstract>", func="find_merge_base@spec", trusted=True,
-    params={"repo": "obj:RepoAbs", "commit_ids": "list[opaque]"}, returns="list[opaque]", raises={ANY: None},
+    params={"repo": "obj:GraphRepoAbs", "commit_ids": "list[opaque]"}, returns="list[opaque]", raises={ANY: None},
     ensures=["len(commit_ids) != 2 or ((len(result) == 1 and result[0] is commit_ids[0]) == upred('is_ancestor', commit_ids[0], commit_ids[1]))"],
     note="ASSUMED (bounded stand-in c13_graphs): find_merge_base([a, b]) == [a] exactly when a is an ancestor of b",
 )
 DEP = "any(j != {i} and " + ANC.format(a="{i}", b="j") + " for j in range(0, len(commit_ids)))"
 contract(
     prop=["C13"], file=G, func="independent",
-    params={"repo": "obj:RepoAbs", "commit_ids": "list[opaque]"}, returns="list[opaque]", raises={ANY: None},
+    params={"repo": "obj:GraphRepoAbs", "commit_ids": "list[opaque]"}, returns="list[opaque]", raises={ANY: None},
     ensures=[
         # soundness: everything returned is one of the given commits and is not an ancestor of another given commit
         "all(any(result[r] is commit_ids[i] and not " + DEP.format(i="i") + " for i in range(0, len(commit_ids))) for r in range(0, len(result)))",
